@@ -21,7 +21,8 @@ RULE = ('exhaustive table: opcode in the 15 re-enabled opcodes x operand tuples 
 NUMS = [0, 1, -1, 2, -2, 3, 5, -5, 7, 16, 17, 127, -127, 128, -128, 255, -255, 256, -256, 32767, -32768, 2 ** 31 - 1, -(2 ** 31 - 1)]
 V = [R.num_enc(n) for n in NUMS] + [b'\x80', b'\x00', b'\x00\x00', b'\x01\x00', b'\xff\x00\x00', b'\x00\x80', b'abc', b'abcd', b'ab', b'\xff\xff', b'\x0f\xf0', b'\xaa\x55\xaa',
                                   b'\xff\xff\xff\xff\x7f', b'\x00\x00\x00\x00\x01', b'\x01\x02\x03\x04\x05\x06', bytes(range(16)), b'hello world']
-OFFS = [R.num_enc(n) for n in (0, 1, 2, 3, 4, 5, 11, 12, -1, 16, 17, 255, 256)] + [b'\x80', b'\x01\x00', b'\x00\x00\x01']
+OFFS = [R.num_enc(n) for n in (0, 1, 2, 3, 4, 5, 11, 12, -1, 16, 17, 255, 256)] + [b'\x80', b'\x01\x00', b'\x00\x00\x01',
+                                                                                     b'\x02\x00\x00', b'\x03\x00\x00\x00', b'\x00\x00\x00\x80', b'\x01\x00\x80', b'\x00\x00\x01\x00', b'\x01\x00\x00\x00\x00']
 STRS = [b'', b'a', b'abc', b'abcd', b'hello world', bytes(range(16)), b'\x00', b'\x80', b'\xff\xff']
 OPS = {0x7e: 'CAT', 0x7f: 'SUBSTR', 0x80: 'LEFT', 0x81: 'RIGHT', 0x83: 'INVERT', 0x84: 'AND', 0x85: 'OR', 0x86: 'XOR', 0x8d: '2MUL', 0x8e: '2DIV',
        0x95: 'MUL', 0x96: 'DIV', 0x97: 'MOD', 0x98: 'LSHIFT', 0x99: 'RSHIFT'}
@@ -56,8 +57,6 @@ def expect(op, args, minimal):
             return ERR
         if 'any' in ns:
             return ANY
-        if any(len(x) > 2 for x in args[1:]):
-            return ANY       # the tool limits offsets to 2-byte numbers; larger ones may be an error or the slice
         if name == 'SUBSTR':
             b, n = ns
             if b < 0 or n < 0 or b + n > len(s):
@@ -97,7 +96,9 @@ def expect(op, args, minimal):
             return ERR
         return ('val', sorted(set([R.num_enc(a - b * tdiv(a, b)), R.num_enc(a % b)])))
     if name in ('LSHIFT', 'RSHIFT'):
-        if b < 0 or b > 62 or a < 0:
+        if b < 0 or b > 63:
+            return ERR       # a shift by a negative count or by the whole width and more is an invalid operand
+        if b > 62 or a < 0:
             return ANY
         if name == 'LSHIFT':
             if a << b >= 2 ** 63:
@@ -170,6 +171,17 @@ def random_tuples():
     sized = st.sampled_from([0, 1, 2, 3, 4, 5, 8, 75, 76, 255, 256, 259, 260, 261, 300, 519, 520]).flatmap(lambda n: st.binary(min_size=n, max_size=n))
     strs = st.one_of(st.binary(max_size=40), sized)
 
+    def padded(draw, n):
+        """the number, in its minimal encoding or (one time in four) padded to up to four bytes - the same value where minimal encoding is not required"""
+        e = R.num_enc(n)
+        k = draw(st.sampled_from([0, 0, 0, 0, 0, 0, 1, 2, 3]))
+        if not k or len(e) + k > 4:
+            return e
+        if not e:
+            return bytes(k)
+        neg = e[-1] & 0x80
+        return e[:-1] + bytes([e[-1] & 0x7f]) + bytes(k - 1) + bytes([neg])
+
     @st.composite
     def tup(draw):
         op = draw(st.sampled_from(sorted(OPS)))
@@ -182,10 +194,10 @@ def random_tuples():
             s_ = draw(strs)
             b_ = draw(st.one_of(st.integers(0, len(s_) + 1), st.integers(-1, 600)))
             n_ = draw(st.one_of(st.integers(0, len(s_) + 1), st.just(len(s_) - b_), st.just(len(s_) - b_ + 1), st.integers(-1, 600)))
-            args = (s_, R.num_enc(b_), R.num_enc(n_))
+            args = (s_, padded(draw, b_), padded(draw, n_))
         elif name in ('LEFT', 'RIGHT'):
             s_ = draw(strs)
-            args = (s_, R.num_enc(draw(st.one_of(st.integers(0, len(s_) + 1), st.just(len(s_)), st.integers(-1, 600)))))
+            args = (s_, padded(draw, draw(st.one_of(st.integers(0, len(s_) + 1), st.just(len(s_)), st.integers(-1, 600)))))
         elif name == 'INVERT':
             args = (draw(strs),)
         elif name in ('AND', 'OR', 'XOR'):
